@@ -12,7 +12,7 @@ SIG_DF_CHASSIS0 = "dragonfly:same-group-route-restarts-from-chassis-0"
 class C26(core.Prop):
     id = "C26"
     drivers = ["route_driver"]
-    ready = False
+    ready = True
     max_workers = 4
     sizes = {"quick": 400, "thorough": 12000}
     technique = ("property-based testing (Hypothesis): every route of a generated torus / fat-tree / dragonfly / star zone is decoded "
